@@ -26,7 +26,9 @@ def recorder() -> P.Recorder:
 
 
 def shrink(tl: List[Dict[str, Any]], rel: float) -> List[Dict[str, Any]]:
-    return [{"c": t["c"], "k": t["k"] - rel * (1 + abs(t["k"]))} for t in tl]
+    """Interior at margin rel; variable-free rows (constant inequalities 0 <= k) involve no LP and stay exact."""
+    return [{"c": t["c"], "k": t["k"] - (rel * (1 + abs(t["k"])) if any(c != 0 for c in t["c"].values()) else 0.0)}
+            for t in tl]
 
 
 def same_coeffs(a: Dict[str, Any], b: Dict[str, Any]) -> bool:
@@ -107,6 +109,8 @@ def judge_simplify(ctx: Ctx, ev: P.Event, case: Any, nested: bool) -> None:  # n
     if len(res) - len(src) < 0:
         ctx.count("simplify:dropped-something:" + tag)
     for i, t in enumerate(res):
+        if not any(c != 0 for c in t["c"].values()):
+            continue  # constant inequalities are not judged for redundancy
         rest = res[:i] + res[i + 1:]
         margin = X.tol_of(t["k"])
         r, _ = X.check(X.conj(cx), X.conj(rest), X.lin(t) > X.q(Fraction(t["k"]) - margin))
@@ -152,6 +156,21 @@ def judge_contract_event(ctx: Ctx, ev: P.Event, case: Any) -> None:
         ctx.violation("contract-meaning-changed:" + d, "constructing/simplifying a contract from A=%s G=%s gave A=%s G=%s: "
                       "assumptions together with guarantees allow different behaviours" % (
                           X.fmt_list(a0), X.fmt_list(g0), X.fmt_list(sc["a"]), X.fmt_list(sc["g"])), case, w)
+    # the guarantees are simplified against the assumptions: none of them may be implied with margin by the
+    # assumptions and the other guarantees
+    if X.feasible(sc["a"] + sc["g"]) != "sat":
+        return
+    for i, t in enumerate(sc["g"]):
+        rest = sc["g"][:i] + sc["g"][i + 1:]
+        r, _ = X.check(X.conj(sc["a"]), X.conj(rest), X.lin(t) > X.q(Fraction(t["k"]) - X.tol_of(t["k"])))
+        if r == "unknown":
+            ctx.inconclusive_case()
+        elif r == "unsat":
+            ctx.violation("contract-redundant-guarantee-kept", "after %s the contract A=%s G=%s still has the guarantee "
+                          "%s, which is implied with margin by the assumptions and the other guarantees" % (
+                              ev.op, X.fmt_list(sc["a"]), X.fmt_list(sc["g"]), X.fmt_term(t)), case)
+            break
+    ctx.count("events:contract-level-irredundancy")
 
 
 def run_case(ctx: Ctx, case: Dict[str, Any]) -> None:
@@ -197,7 +216,16 @@ def run_case(ctx: Ctx, case: Dict[str, Any]) -> None:
 def list_case(rng) -> Dict[str, Any]:  # noqa: C901
     style = gen.pick_style(rng) if rng.random() < 0.85 else "wide"
     fam = rng.choice(["random", "duplicates", "scalings", "combinations", "via_context", "tight", "infeasible",
-                      "random", "near_tight", "no_context"])
+                      "random", "near_tight", "no_context", "near_ctx", "varfree"])
+    if fam == "varfree":
+        # constant inequalities 0 <= k only (what cancelling substitutions leave behind); no LP is involved
+        ks = [1.0, 0.0, -0.0, 2.5, -1.0]
+        terms = [{"c": {}, "k": rng.choice(ks[:4] if rng.random() < 0.8 else ks)} for _ in range(rng.randint(1, 3))]
+        cx = [{"c": {}, "k": rng.choice(ks[:4] if rng.random() < 0.8 else ks)} for _ in range(rng.randint(0, 2))]
+        if rng.random() < 0.3:
+            terms.append(gen.rterm(rng, gen.VN[:2], 2, "int"))
+        return {"kind": "list", "family": fam, "style": "int", "terms": terms, "ctx": cx if cx or rng.random() < 0.5
+                else None}
     nv = rng.randint(1, 5)
     vs = gen.VN[:nv]
     base = gen.feasible_point_list(rng, vs, rng.randint(1, 4), style)
@@ -243,6 +271,19 @@ def list_case(rng) -> Dict[str, Any]:  # noqa: C901
             terms += [t, opp]
     elif fam == "no_context":
         ctx_ = None
+    elif fam == "near_ctx":
+        # a term that is almost, but not quite, one of the context terms (and genuinely tighter somewhere)
+        if not ctx_:
+            ctx_ = gen.feasible_point_list(rng, vs, rng.randint(1, 2), style)
+        t = rng.choice(ctx_)
+        nt = dict(c=dict(t["c"]), k=t["k"])
+        v = rng.choice(list(nt["c"]))
+        d = rng.choice([1e-6, 5e-6, 2e-5, 1e-4, -1e-6, -5e-6, -2e-5])
+        if rng.random() < 0.7:
+            nt["c"][v] = nt["c"][v] * (1 + d)
+        else:
+            nt["k"] = nt["k"] - abs(d) * 200 * (1 + abs(nt["k"]))
+        terms.insert(rng.randint(0, len(terms)), nt)
     if len(terms) > 6:
         terms = terms[:6]
     return {"kind": "list", "family": fam, "style": style, "terms": terms, "ctx": ctx_}
@@ -256,6 +297,10 @@ def gen_case(rng) -> Dict[str, Any]:
         style = gen.pick_style(rng)
         c = gen.rcontract(rng, ["i1", "i2"][: rng.randint(1, 2)], ["o1", "o2"][: rng.randint(1, 2)], style)
         gen.dup_noise(rng, c)
+        if c["a"] and rng.random() < 0.5:
+            # a guarantee that the assumptions already imply with margin
+            t = rng.choice(c["a"])
+            c["g"].insert(rng.randint(0, len(c["g"])), {"c": dict(t["c"]), "k": t["k"] + rng.choice([1.0, 2.0, 10.0])})
         return {"kind": "contract", "family": "contract", "contract": c, "at_construction": rng.random() < 0.6}
     cc = gen.compose_case(rng)
     return {"kind": "compose", "family": "compose", "c1": cc["c1"], "c2": cc["c2"]}
